@@ -83,6 +83,13 @@ def point_scenarios(tier):
         add("cls_%s_add_vs_prefix_split" % cname, base, ["i%d" % newk], ["i%d" % far])
         add("cls_%s_rem_vs_prefix_split" % cname, base, ["r%d" % base[1]], ["i%d" % far])
         add("cls_%s_get_vs_prefix_split" % cname, base, ["g%d" % base[1], "g%d" % newk], ["i%d" % far])
+        # the same with a child under key byte 0: a stale operation that looks at the key at a wrong depth (the
+        # leading zero bytes of small keys) then finds an EXISTING child -- a leaf with another key (seed c03e),
+        # whereas above it finds none (seed c03d)
+        base0 = [i * 256 for i in range(0, n)]
+        add("cls_%s_rem_vs_prefix_split0" % cname, base0, ["r%d" % base0[2]], ["i%d" % far])
+        add("cls_%s_get_vs_prefix_split0" % cname, base0, ["g%d" % base0[2], "g%d" % newk], ["i%d" % far])
+        add("cls_%s_ins_vs_prefix_split0" % cname, base0, ["i%d" % base0[2], "i%d" % newk], ["i%d" % far])
         # readers of the last child / of an absent key while the key array is shifted in place (torn reads)
         add("cls_%s_get_vs_edit" % cname, base, ["g%d" % base[-1], "g%d" % newk], ["i0", "r%d" % base[0]])
         deep = [K(1, 0, 0)] + [K(0, i, 0) for i in range(1, n + 1)]    # I4 root {0 -> node, 1 -> leaf}
